@@ -172,10 +172,21 @@ def run(c, tier):
     rets = collections.Counter(e["ret"] for e in evs if e["ev"] == "Accept")
     evictions = sum(1 for e in evs if e["ev"] == "Accept" and e.get("evicted"))
     fetched = sum(1 for e in evs if e["ev"] == "Fetch" and e["res"])
+    # evictions decided by the protection rounds: more than Protect (8) / more than 2 Protect candidates before the eviction
+    big = {9: 0, 17: 0}
+    prev = None
+    for e in evs:
+        if e["ev"] == "Accept" and e.get("evicted") and prev is not None:
+            k = sum(1 for p in prev["st"]["peers"] if p["ty"] == "in" and not p["wl"])
+            for lim in big:
+                if k >= lim:
+                    big[lim] += 1
+        prev = e
     # vacuity: the interesting situations must have occurred in the real histories
     for what, n in (("evictions", evictions), ("Banned refusals", rets.get("Banned", 0)), ("PeerIdExists refusals", rets.get("PeerIdExists", 0)),
                     ("outbound-limit refusals", rets.get("ReachMaxOutboundLimit", 0)), ("non-empty fetches", fetched),
-                    ("restarts", cnt.get("Restart", 0)), ("bans", cnt.get("BanAddr", 0))):
+                    ("restarts", cnt.get("Restart", 0)), ("bans", cnt.get("BanAddr", 0)),
+                    ("evictions among more than 8 candidates", big[9]), ("evictions among more than 16 candidates", big[17])):
         if n == 0:
             raise V.ToolError("peernet histories are vacuous: no %s" % what)
     good, bad = validate(c, evs, "drive", {"source": "drive", "seed": V.seed()})
@@ -195,7 +206,8 @@ def run(c, tier):
     for r in precs:
         c.case({"g_peernet_purge": r["x"], "seed": V.seed()}, bool(r["removed"]))
     g.update({"histories": len(_split(evs)), "events_validated": good, "histories_rejected": bad, "event_counts": dict(cnt),
-              "accept_answers": dict(rets), "evictions": evictions, "non_empty_fetches": fetched,
+              "accept_answers": dict(rets), "evictions": evictions, "evictions_among_9plus_candidates": big[9],
+              "evictions_among_17plus_candidates": big[17], "non_empty_fetches": fetched,
               "ctl_histories": len(_split(cevs)), "ctl_events_validated": cgood, "ctl_rejected": cbad,
               "purge_experiments": len(precs), "purge_outcomes": dict(shapes), "purge_rejected": pbad})
     c.add("traces_validated_against_impl", len(_split(evs)) + len(_split(cevs)))
